@@ -50,6 +50,11 @@ CHECKS = {
    technique="stateful property-based testing (proptest): invariant monitor over every note after every op of generated histories, with unusual file names and plumbing re-layouts of the notes tree (metamorphic: layout must not matter)",
    text="Structural invariants of every note (one path per object, independent v3 recogniser, schema, base == annotated commit, prompt record per hash, no human entries, sorted ranges, files exist in the commit, line numbers within the file) are checked after every op of generated histories that use every note-producing path; file names come mostly from the unusual classes (incl. the divider and a newline) and refs/notes/ai is re-laid-out between ops (flat / aa/ / aa/bb/ / mixed), after which blame must be unchanged and rewrites must still find the notes.",
    note="Known findings: F5 (cumulative notes of rewritten commits), F6n (newline in a path), F13 (deep fan-out missed by batch look-ups), matched by signature. Size sweep of the notes ref is not implemented (layouts are forced by plumbing instead)."),
+ "C09": dict(
+   level="exploration", design="DESIGN.md §2 C09",
+   technique="property-based testing (proptest): generated histories and blame queries; differential against an independent overlay of real `git blame --line-porcelain` and the notes, across all output formats",
+   text="For generated histories (renames, merges, rewrites) and generated queries (file x revision x -L/-w/--ignore-rev/--ignore-revs-file x format) the harness computes the expected author of every final line from real git's line-porcelain blame (commit, original line, path in that commit) and the commit's note (own parser), and compares with `--json` and with the author column of the default and --show-prompt formats; porcelain, line-porcelain and incremental outputs must name the same commit per line as git's own output.",
+   note="Reference = git 2.39.5 blame. `--json` blames HEAD, so older revisions are reached by detaching HEAD. -M/-C are outside the property's option list. File names containing a newline are excluded here (finding F6n makes their notes unreadable)."),
 }
 
 NOT_YET = "check not built yet (work in progress; see DESIGN.md section 2 for the plan)"
